@@ -321,6 +321,28 @@ func Reach(v any, write bool, site string) {
 	walk(reflect.ValueOf(v), 0)
 }
 
+// WStruct records a write of every field of *p (whole-struct assignment).
+func WStruct[T any](p *T, site string) *T {
+	s := S
+	if s == nil || !s.raceOn() || p == nil {
+		return p
+	}
+	rv := reflect.ValueOf(p).Elem()
+	if rv.Kind() != reflect.Struct {
+		return W(p, site)
+	}
+	if len(s.cur.vc) == 0 {
+		s.race.tick(s.cur)
+	}
+	for i := 0; i < rv.NumField(); i++ {
+		f := rv.Field(i)
+		if f.CanAddr() {
+			s.race.access(s.cur, f.UnsafeAddr(), true, site, "field "+rv.Type().Name()+"."+rv.Type().Field(i).Name, p)
+		}
+	}
+	return p
+}
+
 func ReachR[T any](v T, site string) T { Reach(v, false, site); return v }
 func ReachW[T any](v T, site string) T { Reach(v, true, site); return v }
 
